@@ -242,8 +242,18 @@ def sym_in(it, x, cont):
             if r is not False:
                 parts.append(r.e)
         return mk_bool(z3.Or(*parts)) if parts else False
-    if isinstance(cont, Union):
-        raise Unsupported("membership in a union")
+    if isinstance(cont, Union) or isinstance(x, Union):
+        u, other_is_cont = (cont, False) if isinstance(cont, Union) else (x, True)
+        parts = []
+        for c, alt in u.alts:
+            if alt is None:
+                continue
+            r = sym_in(it, x, alt) if not other_is_cont else sym_in(it, alt, cont)
+            if r is True:
+                parts.append(c)
+            elif r is not False:
+                parts.append(z3.And(c, r.e))
+        return mk_bool(z3.Or(*parts)) if parts else False
     if isinstance(cont, dict):
         cont = list(cont.keys())
     if isinstance(cont, (list, tuple, set, frozenset)):
@@ -616,6 +626,26 @@ def seq_slice(it, seq, s):
 
 
 def getitem(it, obj, idx):
+    if isinstance(idx, Union) and not isinstance(obj, Union):
+        # distribute over the alternatives of the key (exceptions are parked under the alternative's guard)
+        g0 = it.g
+        outs, gs = [], []
+        for c, k in idx.alts:
+            gi = g_and(g0, c)
+            if gi is FALSE:
+                continue
+            it.g = gi
+            r = getitem(it, obj, k)
+            outs.append((c, r))
+            gs.append(it.g)
+        from .values import g_or
+        it.g = g_or(gs)
+        if not outs:
+            return None
+        v = outs[-1][1]
+        for c, x in reversed(outs[:-1]):
+            v = merge(c, x, v)
+        return v
     if isinstance(obj, Union):
         outs = []
         for c, x in obj.alts:
